@@ -18,7 +18,8 @@
      mva src dst : value left in the source of  dst = std::move(src)   (src <> dst)
      mvc src     : value left in the source of  new (dst) T(std::move(src))
      smv v       : value of x after  x = std::move(x)   (identity for int / SwissString / nested ReusableVector,
-                   "" for std::basic_string of libstdc++). *)
+                   "" for std::basic_string of libstdc++); no operation of the vector performs a self-move any more
+                   (prepare_for_insert returns early for count == 0), the case is kept in move_assign for faithfulness. *)
 From Coq Require Import ZArith List Bool Arith.
 Require Import Verif.Gen.Gen_reusable_vector.
 Import ListNotations.
@@ -131,6 +132,8 @@ Definition pop_back (s : vec) : vec :=
 
 (* ---- prepare_for_insert ------------------------------------------------------------------------- *)
 Definition prepare_for_insert (s : vec) (index count : nat) : vec * nat :=
+  (* if (count == 0) return min(index, _constructed_size);   nothing is moved, nothing is self-move-assigned *)
+  if pfi_zero_cond (zz count) then (s, nn (pfi_zero_ret (zz index) (zz (csize s)))) else
   let s := reserve s (nn (pfi_reserve_arg (zz (size s)) (zz count))) in
   let me := nn (pfi_move_end (zz index) (zz count) (zz (csize s))) in
   let re := nn (pfi_recon_end (zz index) (zz count) (zz (csize s))) in
@@ -313,12 +316,6 @@ Definition ok2 (p : list Z * list Z) (o : op2) : bool :=
   match o with OnA o => okb (length (fst p)) o | OnB o => okb (length (snd p)) o | _ => true end.
 Fixpoint valid2 (p : list Z * list Z) (ops : list op2) : bool :=
   match ops with [] => true | o :: t => ok2 p o && valid2 (spec_step2 p o) t end.
-
-(* an insertion of zero elements self-move-assigns every constructed element from the position on *)
-Definition zero_insert (o : op) : bool :=
-  match o with InsertN _ 0 _ => true | InsertRange _ [] => true | _ => false end.
-Definition zero_insert2 (o : op2) : bool :=
-  match o with OnA o | OnB o => zero_insert o | _ => false end.
 
 (* capacity that makes an operation allocation-free when the vector has [sz] elements *)
 Definition demand (sz : nat) (o : op) : nat :=
